@@ -146,7 +146,7 @@ pub fn verify_trace(rec: &CallRec, toks: &mut Toks, arith: bool, out: &mut Vec<V
     // --- the call: per member, configuration, tokens of every absorbed datum, response scalars as limbs
     let mut mv = vec![];
     let mut parts = vec![];
-    for mb in members {
+    for (mi, mb) in members.iter().enumerate() {
         let bytes: Vec<u8> = mb["bytes"].as_array().unwrap().iter().map(|x| x.as_u64().unwrap() as u8).collect();
         let pp = parse_proof(&bytes);
         let t = pp.t;
@@ -154,8 +154,23 @@ pub fn verify_trace(rec: &CallRec, toks: &mut Toks, arith: bool, out: &mut Vec<V
         let gs: Vec<[u8; 32]> = mb["G"].as_array().unwrap().iter().map(bytes32).collect();
         let h = bytes32(&mb["H"]);
         let proms: Vec<u64> = mb["proms"].as_array().unwrap().iter().map(|p| p.as_str().map(|s| s.parse::<u64>().unwrap()).unwrap_or(0)).collect();
+        // the recovered mask of this member (if any) and the reference seed nonces of the VERIFIER's seed
+        let mask: Vec<Value> = info["masks"].as_array().and_then(|a| a.get(mi)).and_then(|m| m.as_array()).map(|a| a.iter().map(|b| bl(&bytes32(b))).collect()).unwrap_or_default();
+        let nref = match mb["seed"].as_array() {
+            Some(_) => {
+                let s = Option::<Scalar>::from(Scalar::from_canonical_bytes(bytes32(&mb["seed"]))).unwrap_or(Scalar::ZERO);
+                json!({
+                    "alpha": (0..t).map(|k| sl(&ref_nonce(&s, "alpha", None, Some(k as u32)))).collect::<Vec<_>>(),
+                    "dL": (0..pp.k).map(|j| (0..t).map(|k| sl(&ref_nonce(&s, "dL", Some(j as u32), Some(k as u32)))).collect::<Vec<_>>()).collect::<Vec<_>>(),
+                    "dR": (0..pp.k).map(|j| (0..t).map(|k| sl(&ref_nonce(&s, "dR", Some(j as u32), Some(k as u32)))).collect::<Vec<_>>()).collect::<Vec<_>>(),
+                    "d": (0..t).map(|k| sl(&ref_nonce(&s, "d", None, Some(k as u32)))).collect::<Vec<_>>(),
+                    "eta": (0..t).map(|k| sl(&ref_nonce(&s, "eta", None, Some(k as u32)))).collect::<Vec<_>>(),
+                })
+            },
+            None => json!({"alpha": [], "dL": [], "dR": [], "d": [], "eta": []}),
+        };
         mv.push(json!({
-            "n": mb["n"], "m": mb["m"], "t": mb["t"], "cap": mb["cap"], "k": pp.k, "tag": t, "seeded": mb["seeded"],
+            "n": mb["n"], "m": mb["m"], "t": mb["t"], "cap": mb["cap"], "k": pp.k, "tag": t, "seeded": mb["seeded"], "mask": mask, "nref": nref,
             "prom": proms.iter().map(|p| sl(&Scalar::from(*p))).collect::<Vec<_>>(),
             "prom64": proms.iter().map(|p| u64_limbs16(&p.to_le_bytes())).collect::<Vec<_>>(),
             "r1": bl(&pp.r1()), "s1": bl(&pp.s1()), "d1": (0..t).map(|k| bl(&pp.d1(k))).collect::<Vec<_>>(),
